@@ -175,17 +175,29 @@ def selftest(pid, wd, tpath):
                 muts.append(("C05-raa-dropped", recs[:k] + recs[k + 1:]))
                 if sum(1 for n_, _ in muts if n_ == "C05-raa-dropped") >= 3:
                     break
+    ncd = 0
     for k, r in enumerate(recs):
+        if ncd >= 6:
+            break
         if r["ev"] == "persist" and r.get("status") == "inprogress" and r.get("has_update"):
-            # drop its completion: whatever was released afterwards was released too early
-            for j in range(k + 1, len(recs)):
-                if recs[j]["ev"] == "complete" and recs[j]["run"] == r["run"] and recs[j]["node"] == r["node"] \
-                        and recs[j]["chan"] == r["chan"] and recs[j]["id"] == r["id"]:
-                    muts.append(("C09-completion-dropped", recs[:j] + recs[j + 1:]))
-                    if sum(1 for n_, _ in muts if n_ == "C09-completion-dropped") >= 3:
-                        break
-            if muts and muts[-1][0].startswith("C09"):
-                break
+            # drop its completion: whatever was released afterwards was released too early.  (Candidates: writes
+            # whose completion is followed, in the same run and before that node crashes, by a message of that
+            # node on that channel -- something was being held for it.)
+            for j in range(k + 1, min(len(recs), k + 600)):
+                x = recs[j]
+                if x["run"] != r["run"] or (x["ev"] == "crash" and x.get("node") == r["node"]):
+                    break
+                if x["ev"] == "complete" and x["node"] == r["node"] and x["chan"] == r["chan"] and x["id"] == r["id"]:
+                    after = []
+                    for y in recs[j + 1:j + 40]:
+                        if y["run"] != r["run"] or y["ev"] in ("crash", "complete", "deliver"):
+                            break
+                        after.append(y)
+                    if any(y["ev"] == "msg" and y.get("from") == r["node"] and y.get("chan") == r["chan"]
+                           and y.get("kind") in ("revoke_and_ack", "commitment_signed") for y in after):
+                        muts.append(("C09-completion-dropped", recs[:j] + recs[j + 1:]))
+                        ncd += 1
+                    break
     for k, r in enumerate(recs):
         if r["ev"] == "persist" and r.get("has_update") and r["uid"] > 1:
             m = clone()
